@@ -104,7 +104,6 @@ impl Color {
 				Base::Color256(n) => {
 					result.push_str("38;5;");
 					write!(result, "{n}").unwrap();
-					result.push_str(&n.to_string());
 				}
 				Base::Unknown(_) => result.push_str("39"),
 			}
